@@ -132,10 +132,13 @@ func (qr *queryRequest) Timeout(d time.Duration) {
 func (qe *queryEvent) startQueryListener() {
 	for m := range qe.ch {
 		m := m
+		vhook("ql.recv", qe.r.rname, m.Reply)
 		qe.r.s.runWith(qe.r.Group(), func() {
 			qe.handleQueryRequest(m)
+			vhook("qr.done", qe.r.rname, m.Reply)
 		})
 	}
+	vhook("ql.exit", qe.r.rname)
 }
 
 // handleQueryRequest is called by the query listener on incoming query requests.
